@@ -269,6 +269,9 @@ class Fitter:
         if wrap:
             for w in wrap:
                 self.open_frontier_node(w)
+            # place into the innermost wrapper: the level below it has already moved
+            # past the wrapper and might accept the node *beside* the open wrapper
+            frontier_depth = self.depth
 
         slice = self.unplaced
         fragment = parent.content if parent else slice.content
